@@ -344,7 +344,8 @@ def marshalM (v : V) : R (Bytes × V) := do
   | .obj "GroupMod" [h, .num cmd, .num t, .num p, .num g, .list bs] => do
     let h := Header.setLength l h
     let hb ← Header.bytes h
-    let (bb, bs', e) ← marshalList Bucket.marshalCopyM bs false
+    let (bb, bs', e) ← (if cmd = Gen.openflow13.OFPGC_DELETE
+      then (.ok ([], bs, false) : R (Bytes × List V × Bool)) else marshalList Bucket.marshalCopyM bs false)
     if e then .err
     else .ok (hb ++ be16 (n16 cmd) ++ [n8 t, n8 p] ++ be32 (n32 g) ++ bb,
               .obj "GroupMod" [h, .num cmd, .num t, .num p, .num g, .list bs'])
@@ -400,19 +401,21 @@ def lenM (v : V) : R (UInt16 × V) :=
 def marshalM (v : V) : R (Bytes × V) := do
   let (l, v) ← lenM v             -- f.Header.Length = f.Len()
   match v with
-  | .obj "FlowMod" [h, .num ck, .num cm, .num tid, .num cmd, .num it, .num ht, .num pr, .num bid, .num op, og,
+  | .obj "FlowMod" [h, .num ck, .num cm, .num tid, .num cmd, .num it, .num ht, .num pr, .num bid, .num op, .num og,
       .num fl, pad, m, .list is] => do
     let h := Header.setLength l h
     let hb ← Header.bytes h
     let fixed := be64 (n64 ck) ++ be64 (n64 cm) ++ [n8 tid, n8 cmd] ++ be16 (n16 it) ++ be16 (n16 ht)
-      ++ be16 (n16 pr) ++ be32 (n32 bid) ++ be32 (n32 op) ++ be32 (n32 op) /- sic: OutPort again -/
+      ++ be16 (n16 pr) ++ be32 (n32 bid) ++ be32 (n32 op) ++ be32 (n32 og)
       ++ be16 (n16 fl) ++ zeros 2
     -- bytes, err = f.Match.MarshalBinary(); data = append(data, bytes...)   (Match returns nil bytes with an error)
     let ((mb, m'), e0) ← catchErr (Match.marshalM m) ([], m)
-    let (ib, is', e) ← marshalList Instruction.marshalM is e0
+    -- delete commands carry no instructions on the wire (as in Len)
+    let (ib, is', e) ← (if cmd = Gen.openflow13.FC_DELETE ∨ cmd = Gen.openflow13.FC_DELETE_STRICT
+      then (.ok ([], is, e0) : R (Bytes × List V × Bool)) else marshalList Instruction.marshalM is e0)
     if e then .err
     else .ok (hb ++ fixed ++ mb ++ ib,
-      .obj "FlowMod" [h, .num ck, .num cm, .num tid, .num cmd, .num it, .num ht, .num pr, .num bid, .num op, og,
+      .obj "FlowMod" [h, .num ck, .num cm, .num tid, .num cmd, .num it, .num ht, .num pr, .num bid, .num op, .num og,
         .num fl, pad, m', .list is'])
   | _ => .panic
 def unmarshal (recv : V) (data : Slice) : R V :=
